@@ -4,6 +4,11 @@ CONSTANTS
   Slots = {0, 31, 32, 33, 100, 1000000007}
   GivenEpochs = {0, 3, 31250000}
   MaxBatch = 5
+  NReq = 1
+  ForkEpochs = {1}
   LawBatch = 6
-INVARIANTS TypeOK DomainRight SigCorrect NoSignatureWithoutDomain ErrorHasNoSignatures
+  HistOps = {}
+  HistKinds = {}
+  HistFails = {}
+INVARIANTS TypeOK DomainRight Memoryless SigCorrect NoSignatureWithoutDomain ErrorHasNoSignatures
 CHECK_DEADLOCK FALSE
